@@ -21,6 +21,9 @@ pub enum Kind {
     Request,
     Cancel,
     UnknownId,
+    /// not a message on the connection under test: a second, active peer completes a piece now (the manager then
+    /// broadcasts Have and may cancel / re-assign the silent peer's piece)
+    HelperDelivers,
 }
 
 #[derive(Clone, Debug, Serialize, Deserialize, PartialEq)]
@@ -65,6 +68,7 @@ fn strategy() -> BoxedStrategy<Case> {
         1 => Just(Kind::Request),
         1 => Just(Kind::Cancel),
         1 => Just(Kind::UnknownId),
+        2 => Just(Kind::HelperDelivers),
     ];
     // either mixed schedules, or "lively" ones that keep talking for a long time
     let mixed = vec((dt, kind.clone()), 0..30);
@@ -88,6 +92,7 @@ pub fn check(c: &Case) -> Outcome {
     let t = Torrent::new(Geometry::single(4, 16, c.seed));
     let ih = t.info_hash();
     let c2 = c.clone();
+    let t2 = t.clone();
     let res = swarm::run(c.seed, &t, move |w: &mut World| {
         Box::pin(async move {
             let c = c2;
@@ -97,6 +102,12 @@ pub fn check(c: &Case) -> Outcome {
             let conn = w.connect(if c.outgoing { Some(remote_id) } else { None });
             let addr = w.conns[conn].addr.clone();
             // start-up traffic: handshake and full bitfield (so that "not interested" never ends the task normally)
+            // a second, well-behaved peer that has everything and serves when the schedule says so
+            let helper = w.connect(None);
+            let mut hview = crate::swarm::PeerView::new();
+            w.send_frame(helper, &RFrame::handshake(ih, [b'h'; 20]));
+            w.send_frame(helper, &RFrame::Bitfield(wire::bits_to_bytes(&[true; 4])));
+            w.send_frame(helper, &RFrame::Unchoke);
             w.settle().await;
             if let Start::LateHandshake(d) = c.start {
                 let mut at = t0 + d as f64 / 10.0;
@@ -121,6 +132,7 @@ pub fn check(c: &Case) -> Outcome {
             let mut activity_b: Vec<f64> = vec![start_activity]; // ... plus unknown-id messages
             let mut when = start_activity;
             let mut near_tick = false;
+            let mut helper_delivered = 0usize;
             for (dt, kind) in &c.arrivals {
                 when += *dt as f64 / 10.0;
                 // stay clear of the client's own ticks: order within one millisecond is select!'s coin
@@ -136,6 +148,19 @@ pub fn check(c: &Case) -> Outcome {
                 if !w.handler_alive(conn) || w.fatal().is_some() {
                     break;
                 }
+                if *kind == Kind::HelperDelivers {
+                    if w.handler_alive(helper) {
+                        let fr = w.take_frames(helper);
+                        hview.absorb(&fr);
+                        if let Some((i, b, l)) = hview.outstanding.pop_front() {
+                            let data = t2.piece(i as usize)[b as usize..(b + l) as usize].to_vec();
+                            w.send_frame(helper, &RFrame::Piece(i, b, data));
+                            helper_delivered += 1;
+                        }
+                        w.settle().await;
+                    }
+                    continue;
+                }
                 // before a handshake only keep-alives may arrive (anything else legitimately ends the connection)
                 let kind = if c.start == Start::NoHandshake { &Kind::KeepAlive } else { kind };
                 let f = match kind {
@@ -148,6 +173,7 @@ pub fn check(c: &Case) -> Outcome {
                     Kind::Request => RFrame::Request(0, 0, 4),
                     Kind::Cancel => RFrame::Cancel(0, 0, 4),
                     Kind::UnknownId => RFrame::Unknown(20, vec![1, 2, 3]),
+                    Kind::HelperDelivers => unreachable!(),
                 };
                 w.send_frame(conn, &f);
                 w.settle().await;
@@ -168,12 +194,13 @@ pub fn check(c: &Case) -> Outcome {
             let reason = w.conns[conn].kill_reason.clone();
             let snap = w.snapshot();
             let in_snapshot = snap.peers.iter().any(|p| p.addr == addr);
-            let reserved_left = snap.statuses.iter().any(|s| matches!(s, Status::Reserved(_)));
+            // a reservation that no connected peer stands for (the helper may legitimately hold one)
+            let reserved_left = snap.statuses.iter().enumerate().any(|(i, s)| matches!(s, Status::Reserved(_)) && !snap.peers.iter().any(|p| p.piece_index == Some(i)));
             let kas: Vec<f64> = w.conns[conn].frames.iter().filter(|(_, f)| matches!(f, RFrame::KeepAlive)).map(|(t, _)| t.as_secs_f64()).collect();
-            (t0, activity_a, activity_b, finished, reason, in_snapshot, reserved_left, kas, w.fatal(), near_tick, w.now().as_secs_f64())
+            (t0, activity_a, activity_b, finished, reason, in_snapshot, reserved_left, kas, w.fatal(), near_tick, w.now().as_secs_f64(), helper_delivered)
         })
     });
-    let (t0, act_a, act_b, finished, reason, in_snapshot, reserved_left, kas, fatal, near_tick, end) = match res {
+    let (t0, act_a, act_b, finished, reason, in_snapshot, reserved_left, kas, fatal, near_tick, end, helper_delivered) = match res {
         Ok(x) => x,
         Err(p) => {
             o.fail(panic_signature(&p), format!("runtime panic: {}", p));
@@ -198,6 +225,7 @@ pub fn check(c: &Case) -> Outcome {
     o.class_if(long_silence, "silence>240s-inside-schedule");
     o.class_if(c.assign_first, "piece-assigned");
     o.class_if(c.outgoing, "outgoing");
+    o.class_if(helper_delivered > 0, "other-peer-completes-pieces-meanwhile");
     o.class_if(c.start == Start::NoHandshake, "never-handshakes");
     o.class_if(matches!(c.start, Start::LateHandshake(_)), "late-handshake");
     o.class_if(act_a.len() != act_b.len(), "unknown-id-messages");
@@ -271,7 +299,7 @@ pub fn check(c: &Case) -> Outcome {
 pub fn def() -> PropDef {
     PropDef {
         id: "C20",
-        rule: "one remote peer on the swarm runtime under tokio's paused clock: the remote handshakes at once, never (only keep-alives arrive), or after 30..359 s of silence; valid handshake + full bitfield (+ optional unchoke so that a piece gets reserved), then up to 30 arrivals (delta-t from {0.5,30,60,119,119.9,120.1,121,200,239,241,300,359,361,500} s and lively spacings 30..119.5 s; kind from keep-alive, choke, unchoke, interested, not-interested, have, request, cancel, unknown-id message), arrivals nudged 0.7 s away from the client's own ticks; then 500 s of silence. Oracle from a small reference reading of the statement: closed by last-other-message + 360 s (+1.5 s), peer forgotten and reservation released; never closed for inactivity while every gap between other messages is < 120 s; exactly one keep-alive read at each t0+120k s while alive, none off schedule. Silences between 120 s and 360 s and the role of unknown-id messages are deliberately unasserted (both readings accepted). Non-trivial = a schedule longer than 360 s with an arrival within 1.5 s of a tick, or a silence > 240 s inside the schedule, or a lively schedule > 360 s; distinct by hash of the case.",
+        rule: "one remote peer on the swarm runtime under tokio's paused clock: the remote handshakes at once, never (only keep-alives arrive), or after 30..359 s of silence; valid handshake + full bitfield (+ optional unchoke so that a piece gets reserved), a second, active peer that holds everything is connected as well and completes a piece whenever the schedule says so (its completions make the manager broadcast Have and cancel / re-assign the silent peer's piece); then up to 30 arrivals (delta-t from {0.5,30,60,119,119.9,120.1,121,200,239,241,300,359,361,500} s and lively spacings 30..119.5 s; kind from keep-alive, choke, unchoke, interested, not-interested, have, request, cancel, unknown-id message), arrivals nudged 0.7 s away from the client's own ticks; then 500 s of silence. Oracle from a small reference reading of the statement: closed by last-other-message + 360 s (+1.5 s), peer forgotten and reservation released; never closed for inactivity while every gap between other messages is < 120 s; exactly one keep-alive read at each t0+120k s while alive, none off schedule. Silences between 120 s and 360 s and the role of unknown-id messages are deliberately unasserted (both readings accepted). Non-trivial = a schedule longer than 360 s with an arrival within 1.5 s of a tick, or a silence > 240 s inside the schedule, or a lively schedule > 360 s; distinct by hash of the case.",
         assumptions: &[
             "virtual time: tokio's paused clock; the harness drains sockets every virtual second, so keep-alive timestamps are accurate to 1 s",
             "arrivals closer than 0.3 s to a client tick are moved: their order against the tick is decided by select!'s internal coin",
@@ -281,7 +309,7 @@ pub fn def() -> PropDef {
             cases: |t| t.pick(15_000, 200_000),
             run: |ctx| run_proptest(ctx, "schedules", strategy(), check),
             replay: |v| replay_case::<Case>(v, check),
-            min_class: &[("lively>360s-all-gaps<120s", 0.1), ("arrival-within-1.5s-of-a-tick", 0.1822), ("silence>240s-inside-schedule", 0.0703), ("piece-assigned", 0.15), ("never-handshakes", 0.05), ("late-handshake", 0.05)],
+            min_class: &[("lively>360s-all-gaps<120s", 0.05), ("arrival-within-1.5s-of-a-tick", 0.1822), ("silence>240s-inside-schedule", 0.0703), ("piece-assigned", 0.15), ("never-handshakes", 0.05), ("late-handshake", 0.05), ("other-peer-completes-pieces-meanwhile", 0.07)],
         }],
     }
 }
